@@ -174,7 +174,7 @@ PROPS = {
         "evaluations": ["disk.cases", "nbr.cases", "disks.cases"],
         "rule": "cases: (origin, k) run through all seven disk/ring functions; (origin) neighbour facts + predicate over the 2-ball, siblings and far cells; (3 origins, k) for gridDisksUnsafe. Non-trivial = k>0; "
                 "distinct by hash of (origin, k).",
-        "require": {"disk.cases": 50000, "disk.with_pentagon": 2000, "pred.pairs": 500000, "pred.sibling_pairs": 100000, "unsafe.errors": 1000, "unsafe.successes": 10000, "disk.wrapping": 10, "ring.successes": 10000, "wrapring.origins": 500, "wrapring.radius_wraps_half_globe": 5000, "disk.covers_globe": 500, "pred.structured_far_pairs": 100000},
+        "require": {"disk.cases": 50000, "disk.with_pentagon": 2000, "pred.pairs": 500000, "pred.sibling_pairs": 100000, "unsafe.errors": 1000, "unsafe.successes": 10000, "disk.wrapping": 10, "ring.successes": 10000, "wrapring.origins": 500, "wrapring.radius_wraps_half_globe": 5000, "disk.covers_globe": 500, "pred.structured_far_pairs": 100000, "disk.k_sweep": 65, "disk.k_sweep_pentagon_inside": 65},
         # every reachable cell of the neighbour-traversal tables must have been looked up (measured through the
         # H3_VERIF_HOOKS observation points: column 0 = CENTER is never a traversal direction)
         "require_tables": {"NEW_DIGIT_II@": 42, "NEW_DIGIT_III@": 42, "baseCellNeighbors@h3NeighborRotations": 732},
